@@ -9,7 +9,7 @@
 use math::{
     fft::real_u64::{fft4_real, ifft4_real_unreduced},
     fields::f64::BaseElement,
-    FieldElement,
+    FieldElement, StarkField,
 };
 
 /// This module contains helper functions as well as constants used to perform a 12x12 vector-matrix
@@ -60,8 +60,12 @@ pub(crate) fn mds_multiply(state: &mut [BaseElement; 12]) {
         let s_lo = s as u64;
         let z = (s_hi << 32) - s_hi;
         let (res, over) = s_lo.overflowing_add(z);
+        let res = res.wrapping_add(0u32.wrapping_sub(over as u32) as u64);
 
-        result[r] = BaseElement::from_mont(res.wrapping_add(0u32.wrapping_sub(over as u32) as u64));
+        // res is congruent to the result but may still be in [M, 2^64); subtract the modulus once
+        // so that the state holds canonical elements (equality compares raw words)
+        let (red, under) = res.overflowing_sub(BaseElement::MODULUS);
+        result[r] = BaseElement::from_mont(if under { res } else { red });
     }
     *state = result;
 }
